@@ -60,6 +60,18 @@ def run(tier, seed, replay):
                 image = 'image file ' + paths[0]
             except ValueError:
                 image = None
+        if i % 7 == 5:
+            # a host file that ends inside an allocated cluster at a multiple of 512 only (written with block size 512),
+            # then served with a larger block size: reads at / across the end of the host file
+            cbx = rng.choice([12, 13, 16])
+            g0 = hist.Geom(cbx, 4, 64 << cbx, 9, (9, 4 << 9), (9, 4 << 9))
+            pre = 'c16w_%d' % i
+            k = rng.choice([1, 3, 5])
+            cases.append({'cid': pre, 'g': g0, 'ops': [], 'text': hist.case_text(pre, g0, ['W %d %d 1' % (rng.randrange(0, 4) << cbx, 512 * k), 'F', 'X w', 'alignstat 9'])})
+            bsb = rng.choice([10, 11, 12])
+            g = hist.Geom(cbx, 4, 64 << cbx, bsb, (bsb, 4 << bsb), (bsb, 4 << bsb))
+            ops = [('R', c << cbx, n << bsb) for c in range(4) for n in (1, (1 << cbx) >> bsb)]
+            image = 'image file ' + os.path.join(d, pre + '.w.img')
         lines = [hist.op_line(o) for o in ops] + ['F', 'alignstat %d' % g.bs]
         cases.append({'cid': cid, 'g': g, 'ops': ops, 'text': hist.case_text(cid, g, lines, image=image)})
     obs = seqrun.run_cases_text(d, [(c['cid'], c['text']) for c in cases])
